@@ -26,6 +26,7 @@ import binascii
 from typing import Tuple, Union
 
 from nacl import bindings
+from nacl import exceptions as nacl_exceptions
 
 from bip_utils.utils.misc import BytesUtils, IntegerUtils
 
@@ -278,10 +279,13 @@ def point_add(point_1: Union[bytes, Tuple[int, int]],
     Returns:
         bytes: New point resulting from the addition
     """
-    return bindings.crypto_core_ed25519_add(
-        point_1 if isinstance(point_1, bytes) else point_encode(point_1),
-        point_2 if isinstance(point_2, bytes) else point_encode(point_2)
-    )
+    try:
+        return bindings.crypto_core_ed25519_add(
+            point_1 if isinstance(point_1, bytes) else point_encode(point_1),
+            point_2 if isinstance(point_2, bytes) else point_encode(point_2)
+        )
+    except nacl_exceptions.RuntimeError as ex:
+        raise ValueError("Invalid operands (the result or an operand is not a valid point for the library)") from ex
 
 
 def point_scalar_mul(scalar: Union[bytes, int],
@@ -296,10 +300,13 @@ def point_scalar_mul(scalar: Union[bytes, int],
     Returns:
         bytes: New point resulting from the multiplication
     """
-    return bindings.crypto_scalarmult_ed25519_noclamp(
-        scalar if isinstance(scalar, bytes) else int_encode(scalar),
-        point if isinstance(point, bytes) else point_encode(point)
-    )
+    try:
+        return bindings.crypto_scalarmult_ed25519_noclamp(
+            scalar if isinstance(scalar, bytes) else int_encode(scalar),
+            point if isinstance(point, bytes) else point_encode(point)
+        )
+    except nacl_exceptions.RuntimeError as ex:
+        raise ValueError("Invalid operands (the result or an operand is not a valid point for the library)") from ex
 
 
 def point_scalar_mul_base(scalar: Union[bytes, int]) -> bytes:
@@ -312,9 +319,12 @@ def point_scalar_mul_base(scalar: Union[bytes, int]) -> bytes:
     Returns:
         bytes: New point resulting from the multiplication
     """
-    return bindings.crypto_scalarmult_ed25519_base_noclamp(
-        scalar if isinstance(scalar, bytes) else int_encode(scalar)
-    )
+    try:
+        return bindings.crypto_scalarmult_ed25519_base_noclamp(
+            scalar if isinstance(scalar, bytes) else int_encode(scalar)
+        )
+    except nacl_exceptions.RuntimeError as ex:
+        raise ValueError("Invalid operands (the result or an operand is not a valid point for the library)") from ex
 
 
 def scalar_reduce(scalar: Union[bytes, int]) -> bytes:
